@@ -127,7 +127,18 @@ def handle (j : Json) : IO Unit := do
     | .inr targets => execute select outcome targets
     | .inl _ => ([], Result.noEndpoints)
   -- the implementation's answer
-  let seen : Seen := ⟨cStatus, ctypeOf ct, classify ct body sent⟩
+  -- bodies over 1 MiB are compared byte for byte by the harness (big_class); only their heads arrive here
+  let bigClass := jstr (jget impl "big_class")
+  let cls : Body :=
+    if bigClass == "equal" then .backend true
+    else if bigClass == "prefix" then .backend false
+    else if bigClass == "other" then
+      -- the heads: an Olla-made text, an event stream or an Anthropic error object are recognisable from their beginning;
+      -- a truncated JSON head that starts like an Anthropic error object is one
+      (let c := classify ct body []
+       if c == .other && (("{\"type\":\"error\"".toUTF8.toList).isPrefixOf body || ("{\"error\":".toUTF8.toList).isPrefixOf body) && ct.startsWith "application/json" then .anthropicError else c)
+    else classify ct body sent
+  let seen : Seen := ⟨cStatus, ctypeOf ct, cls⟩
   let mContacted := (contactedList tr).filter (fun i => kindAt i != "refuse")
   let contacted := (jstrList (jget impl "contacted")).map (fun s => (s.toList.headD 'A').toNat - 'A'.toNat)
   let mOffline := (offlineList tr).map (fun i => String.singleton (Char.ofNat ('A'.toNat + i)))
